@@ -46,7 +46,13 @@ Record cstate := mkC {
 }.
 
 Inductive caction :=
-| AStrobe        (* Strobe(): rendezvous with the loop, or <-c.done *)
+| AStrobe        (* Strobe(): select { case c.strobes <- struct{}{}: case <-c.done: } on the
+                    UNBUFFERED channel c.strobes: a blocking rendezvous -- Strobe returns only
+                    after the run loop has received the strobe (and then arms the timer), or
+                    after c.done is closed.  The loop's start-up and its way back into the
+                    select are therefore not separate states: a strobe issued at any moment,
+                    including right after NewCoalescer (time 0) or right after a signal was
+                    delivered, simply waits for the loop; it is never dropped. *)
 | AFire          (* the runtime fires the timer *)
 | AHandle        (* loop: case <-timer.C: select { case c.signals <- struct{}{}: default: } *)
 | ATake          (* consumer: <-c.Signals() *)
